@@ -122,7 +122,7 @@ fn main() {
         std::process::exit(replay(&path));
     }
     // replay files are numbered per run; drop the ones of earlier runs so that none goes stale
-    if let Ok(rd) = std::fs::read_dir(format!("{}/replays/C11", mclib::engine::VERIF_DIR)) {
+    if let Ok(rd) = std::fs::read_dir(format!("{}/replays/C11", mclib::engine::verif_dir())) {
         for e in rd.flatten() {
             if e.path().extension().map(|x| x == "json").unwrap_or(false) {
                 let _ = std::fs::remove_file(e.path());
